@@ -262,7 +262,7 @@ Definition headed (b : name) (s : site) : Prop :=
 
 Lemma headed_join b s : headed b s -> exists m, join_us (site_segs s) = (b ++ "_" ++ m)%string.
 Proof.
-  destruct s as [i p|nm i p|b' m|b' k|b' m]; cbn [headed]; try tauto; intros ->; cbn [site_segs join_us]; eauto.
+  destruct s as [i p|nm i p|nm i p pth|b' m|b' k|b' m]; cbn [headed]; try tauto; intros ->; cbn [site_segs join_us]; eauto.
 Qed.
 
 Lemma headed_ne b s l n : headed b s -> invent s l = Ok n -> n <> b.
@@ -373,6 +373,7 @@ Definition site_func (s : site) : string * string :=
   match s with
   | SPortRef _ _ => ("portrefs", "create_source")
   | SNoConn _ _ _ => ("portrefs", "replace_noconn")
+  | SNoConnMember _ _ _ _ => ("portrefs", "noconn_array_bundle")
   | SFlatMember _ _ => ("flatten_bundles", "replace_bundle_inst")
   | SArrayElem _ _ => ("arrays", "elaborate_module")
   | SPairMember _ _ => ("inst_bundles", "elaborate_instance_bundle")
@@ -388,6 +389,6 @@ Proof. destruct s; vm_compute; reflexivity. Qed.
 
 Lemma sites_table_complete :
   forallb (fun c => existsb (fun f => String.eqb (fst (fst c)) (fst f) && String.eqb (snd (fst c)) (snd f))
-                            [site_func (SPortRef "" ""); site_func (SNoConn None "" ""); site_func (SFlatMember "" "");
+                            [site_func (SPortRef "" ""); site_func (SNoConn None "" ""); site_func (SNoConnMember None "" "" []); site_func (SFlatMember "" "");
                              site_func (SArrayElem "" 0); site_func (SPairMember "" "")]) c05_flatname_calls = true.
 Proof. vm_compute. reflexivity. Qed.
